@@ -101,6 +101,31 @@ def m_iter(interp, args, info):
     return make_iter(interp, Ptr(Cell(ListV(list(t.bytes())))))
 
 
+def m_bytes(interp, args, info):
+    t = _text(interp, args[0])
+    if t is None:
+        return NotImplemented
+    return IterV("vec", ListV(list(t.bytes())))
+
+
+def m_chars(interp, args, info):
+    t = _text(interp, args[0])
+    if t is None:
+        return NotImplemented
+    return IterV("vec", ListV([ord(ch) for ch in t.bytes().decode("utf-8")]))
+
+
+def m_char_indices(interp, args, info):
+    t = _text(interp, args[0])
+    if t is None:
+        return NotImplemented
+    out, pos = [], 0
+    for ch in t.bytes().decode("utf-8"):
+        out.append((pos, ord(ch)))
+        pos += len(ch.encode("utf-8"))
+    return IterV("vec", ListV(out))
+
+
 class LinesV(object):
     __slots__ = ("text",)
 
@@ -204,6 +229,9 @@ def install():
     _wrap("core::str::traits::<impl std::ops::Index<I> for str>::index", m_index_to)
     _wrap("bytecount::count", m_count)
     _wrap("core::slice::<impl [T]>::iter", m_iter)
+    _wrap("core::str::<impl str>::bytes", m_bytes)
+    _wrap("core::str::<impl str>::char_indices", m_char_indices)
+    _wrap("core::str::<impl str>::chars", m_chars)
     _wrap("core::str::<impl str>::lines", m_lines)
     _wrap("<std::str::Lines<'a> as std::iter::Iterator>::next", m_lines_next)
     _wrap("core::str::<impl str>::trim_end", m_trim_end)
@@ -253,7 +281,8 @@ def table(prog, maxlen):
             except Inconclusive as e:
                 row["status"] = "inconclusive"
                 row["error"] = (e.reason, e.where)
-            from .report import path_sig
+            from .report import coverage, path_sig
             row["sig"] = path_sig(it)
+            row["cov"] = coverage(it)
             rows.append(row)
     return rows
